@@ -592,8 +592,14 @@ def _heap_order(root):
 
 # ------------------------------------------------------------------ Lean side
 
+def immutable_output(case):
+    """an ImmutableStructure deep-copies what it is given and hands every value out through the deep-copying
+    accessor, which the heap model (one table for all classes) does not describe: oracle only for these"""
+    return bool(case.get("cls", {}).get("immutable")) and case["op"] in OUTPUT_OPS + ("construct", "setattr", "deserialize")
+
+
 def line(case, impl):
-    if "cells" not in impl:
+    if "cells" not in impl or immutable_output(case):
         return {"suite": "alias", "skip": True}
     return {"suite": "alias", "op": case["op"], "shape": impl["shape"], "cells": impl["cells"], "src": impl["src"],
             "topKind": impl.get("topKind", "root")}
@@ -616,13 +622,15 @@ def judge(case, impl, model):
     if not impl.get("args_same", True):
         fails.append((f"arg-mutated:{op}", f"{op} changed one of its arguments (deep snapshot differs); "
                       f"model argsSame={model.get('argsSame')}"))
-    if model.get("skip"):
+    if model.get("skip") and not immutable_output(case):
         return None, fails
-    if model.get("argsSame") != impl.get("args_same"):
+    if not model.get("skip") and model.get("argsSame") != impl.get("args_same"):
         msg = f"argument mutation: real args_same={impl.get('args_same')} model={model.get('argsSame')}"
     if impl.get("ok"):
         modes = {(k.split(".")[-1], c.split(".")[-1]): m for k, c, m in model.get("modes", [])}
-        if not model.get("ok"):
+        if model.get("skip"):
+            pass
+        elif not model.get("ok"):
             # a site whose witness raised is 'unknown' to the table: no prediction there
             if "error" not in modes.values():
                 msg = msg or (f"real {op} succeeded but the model says it raises (a container where a scalar is "
@@ -633,7 +641,7 @@ def judge(case, impl, model):
         # poke oracle (and identity verdict) -> findings keyed by the responsible table site
         hits = [(p, l) for p, l in impl.get("poked", [])]
         poked_paths = [list(p) for p, _ in hits]
-        if op in INPUT_OPS or op in OUTPUT_OPS:
+        if (op in INPUT_OPS or op in OUTPUT_OPS) and not immutable_output(case):
             hits += [(p, "is-identity") for p in impl.get("shared_paths", [])
                      if not any(list(p)[:n] in poked_paths for n in range(len(p) + 1))]
         for path, label in hits:
@@ -658,6 +666,8 @@ def judge(case, impl, model):
                 continue
             kind, cat = site
             pheno = "retained-arg" if op in INPUT_OPS else "result-aliases-internal"
+            if immutable_output(case):
+                kind = "immutable-" + kind
             fails.append((f"{pheno}:{op}:{kind}:{cat}",
                           f"{op}: {label} on the object at {path} of the "
                           f"{'argument' if op in INPUT_OPS else 'returned value'} changed the "
@@ -753,6 +763,8 @@ def _gen_cases(rng, tier, n_classes):
         cls["name"] = f"A{ci}"
         cls.pop("ignoreNone", None)
         normalize_wrappers(cls)
+        if rng.random() < 0.2:
+            cls["immutable"] = True
         C.fix_accepts(cls)
         kw = vg.valid_kw(cls)
         if kw is gen.NOVALUE:
@@ -781,6 +793,7 @@ def _gen_cases(rng, tier, n_classes):
         from . import serde as SD
         doc = SD.dedupe_doc({"m": [[k, SD.to_doc(fd.get(k), v)] for k, v in kw]})
         cases.append(dict(base, op="deserialize", doc=doc))
+        cases.append(dict(base, op="deserialize", doc=doc, keepUndefined=False))
         # an undeclared key holding a container (kept as additional property or dropped, never edited)
         cases.append(dict(base, op="deserialize", doc={"m": doc["m"] + [["zz_extra", {"l": [{"l": [1]}]}]]},
                           keepUndefined=rng.choice([True, False]), stream="extra-key"))
@@ -944,6 +957,25 @@ def directed_cases():
         out.append({"suite": "alias", "op": op, "cls": multi, "kw": kw})
     for how in ("Omit", "Pick", "Extend", "Partial", "AllFieldsRequired"):
         out.append({"suite": "alias", "op": "derive", "cls": multi, "how": how, "names": ["a", "b"]})
+    # an ImmutableStructure: everything goes in and out through deep copies (oracle only)
+    imm = dict(_cls("Imm", [["a", ARR_INT], ["b", {"k": "seqOf", "item": ARR_INT}], ["u", {"k": "seqAny"}],
+                            ["m", {"k": "mapAny"}], ["s", {"k": "seqOf", "item": STR}]]), immutable=True)
+    ikw = [["a", {"l": [1, 2]}], ["b", {"l": [{"l": [1]}]}], ["u", {"l": [{"l": [1]}, 2]}], ["m", {"m": [["k", {"l": [1]}]]}],
+           ["s", {"l": ["x"]}]]
+    for op in ("construct", "serialize", "fastSerialize"):
+        out.append({"suite": "alias", "op": op, "cls": imm, "kw": ikw})
+    for nm in ("a", "b", "u", "m", "s"):
+        out.append({"suite": "alias", "op": "fieldSerialize", "cls": imm, "kw": ikw, "field": nm})
+    # undeclared keys at every level of a document (kept or dropped, never edited), both flag values
+    inl = dict(_cls("InlX", [["x", INT], ["l", ARR_INT]], addl=True), inline=True)
+    ref = _cls("RefX", [["x", INT]], addl=True)
+    nest = _cls("Nest", [["s", inl], ["r", ref], ["arr", {"k": "seqOf", "item": copy.deepcopy(inl)}],
+                         ["m", {"k": "mapOf", "key": STR, "val": copy.deepcopy(ref)}]], addl=True)
+    sub = lambda: {"m": [["x", 1], ["l", {"l": [1]}], ["zz", {"l": [{"l": [1]}]}]]}
+    subr = lambda: {"m": [["x", 1], ["zz", {"l": [{"l": [1]}]}]]}
+    ndoc = {"m": [["s", sub()], ["r", subr()], ["arr", {"l": [sub()]}], ["m", {"m": [["k", subr()]]}], ["top", {"l": [1]}]]}
+    for ku in (True, False, None):
+        out.append({"suite": "alias", "op": "deserialize", "cls": nest, "doc": ndoc, "keepUndefined": ku})
     sch = _cls("Sch", [["e", {"k": "enumLit", "values": [1, 2, 3]}], ["a", ARR_INT], ["s", STR], ["i", INNER]], required=["e", "a"], addl=True)
     out.append({"suite": "alias", "op": "toSchema", "cls": sch})
     out.append({"suite": "alias", "op": "schemaToCode", "cls": sch})
